@@ -369,6 +369,19 @@ func (f *Frame) callStatic(st *State, site ssa.CallInstruction, common *ssa.Call
 			}
 		}
 	}
+	if top := f.topFrame(); top.contract != nil {
+		// "track <callee>": the arguments of the latest call of a callee that is met through its contract or
+		// inlined are recorded as for extern interface methods (specifications read them with lastarg)
+		for _, tr := range top.contract.Extra["track"] {
+			if strings.Fields(tr)[0] == callee.Name() {
+				rec := args
+				if callee.Signature.Recv() != nil && len(args) > 0 {
+					rec = args[1:]
+				}
+				f.recordLastArgs(st, callee.Name(), rec)
+			}
+		}
+	}
 	if ct := c.W.contractFor(callee); ct != nil && (len(ct.Extra["inline"]) == 0 || opaque) {
 		// a function under contract is always called through its contract
 		// (including recursive calls); only the top frame's own body is executed.
